@@ -206,6 +206,7 @@ def _block_inverse(w, A):
     X = S.concatenate([S.concatenate([X11, X12], axis=-1), S.concatenate([X21, X22], axis=-1)], axis=-2)
     w.hints_used.append(f"GtvLemmas.inv_fromBlocks{pivot}")
     w.hints_used.append(f"GtvLemmas.det_fromBlocks{pivot}")
+    w.__dict__.setdefault("block_inverse_log", []).append((A, X, ld))
     return X.fresh_copy(), ld.fresh_copy()
 
 
@@ -233,6 +234,16 @@ def intern_matrix(w, A, want_inverse, assume_symmetric=False):
                                         (1, 0): K.neg(K.mul(a21, dinv)), (1, 1): K.mul(a11, dinv)}).fresh_copy()
             w.hints_used.append("2x2 adjugate inverse")
             return inv, ld.fresh_copy()
+        # the argument IS a block inverse handed out earlier by this contract: its inverse is the original matrix and its
+        # log-determinant the negative of the original's (GtvLemmas.det_inv_of_mul_eq_one)
+        for (A0, X0, ld0) in w.__dict__.get("block_inverse_log", []):
+            try:
+                same = [S._same_struct(a_, b_) for a_, b_ in zip(A.axes, X0.axes)]
+                if len(A.axes) == len(X0.axes) and all(same) and w._equal(A, X0)[0]:
+                    w.hints_used.append("GtvLemmas.det_inv_of_mul_eq_one")
+                    return (A0.fresh_copy() if want_inverse else None), (-ld0).fresh_copy()
+            except (S.ShimUnsupported, S.ShapeError, K.KernelError):
+                continue
         if want_inverse:
             return _block_inverse(w, A)
         return None, _block_logdet(w, A)
